@@ -35,22 +35,44 @@ def run(ctx):
     ctx.rule("T2/T8 mint/burn pairing: on every path to Ok, mint creates the bucket, emits the Mint event and (when TrackTotalSupply) updates "
              "total supply — all with the same amount operand; burn_internal emits the Burn event and decrements supply by the dropped "
              "bucket's amount; create_bucket elsewhere is fed only by what was actually taken")
+    # interprocedural must-pass-through over the manager's own methods: every entry point that (transitively) drops a bucket stores the new
+    # total supply on every path to Ok (or takes the TrackTotalSupply-disabled edge) — in the function itself or in a manager method it calls
+    meths = {nm: f for nm, f in F.fns.items() if nm.startswith(FRM + "::") and f.root == nm}
+    callees = {nm: {c[0] for c in f.calls if c[0] in meths and c[0] != nm} for nm, f in meths.items()}
+    called = set().union(*callees.values()) if callees else set()
+
+    def trans(nm, pred, seen=None):
+        seen = seen or set()
+        if nm in seen:
+            return False
+        seen.add(nm)
+        return pred(nm) or any(trans(c, pred, seen) for c in callees.get(nm, ()))
+    drops = lambda nm: any(c[0].endswith("::drop_fungible_bucket") for c in meths[nm].calls)
+    memo = {}
+
+    def must_update(nm, depth=0):
+        if nm in memo:
+            return memo[nm]
+        memo[nm] = False
+        bm = ctx.body(nm)
+        oks_ = set(bm.ok_exits())
+        wr = [bb for bb, t in bm.calls(r"::field_write_typed$") if "TotalSupply" in t["ga"]]
+        via = [bb for bb, t in bm.calls(re.escape(FRM) + r"::\w+$") if t["f"] in meths and t["f"] != nm and depth < 4 and must_update(t["f"], depth + 1)]
+        e, _ = pass_edges(bm, G_bool_call(r"::actor_is_feature_enabled$", False))
+        ok = bool(oks_) and bool(wr or via) and not (bm.reach((0,), blocked_edges=e, blocked_blocks=wr + via) & oks_)
+        memo[nm] = ok
+        return ok
     n = FRM + "::mint"
     if ctx.anchor(n):
         b = ctx.body(n)
         oks = set(b.ok_exits())
         for what, pat in (("create_bucket", re.escape(FRM) + r"::create_bucket$"), ("MintFungibleResourceEvent", r"Runtime::emit_event$"),
-                          ("mintable check", re.escape(FRM) + r"::assert_mintable$"), ("amount check", r"::check_mint_amount$"),
-                          ("feature test", r"::actor_is_feature_enabled$")):
+                          ("mintable check", re.escape(FRM) + r"::assert_mintable$"), ("amount check", r"::check_mint_amount$")):
             blocks = call_blocks(b, pat)
             ok = bool(blocks) and not (b.reach((0,), blocked_blocks=blocks) & oks)
             ctx.ob(f"mint|{what}-on-every-path", ok, f"{what}: {len(blocks)} site(s), on every path to Ok: {ok}", b.loc(blocks[0]) if blocks else b.loc())
-        # supply update only skipped on the feature-disabled arm
-        wr = [bb for bb, t in b.calls(r"::field_write_typed$") if "TotalSupply" in t["ga"]]
-        feat = G_bool_call(r"::actor_is_feature_enabled$", False)
-        e, bl = pass_edges(b, feat)
-        r = b.reach((0,), blocked_edges=e, blocked_blocks=wr)
-        ctx.ob("mint|supply-updated-when-tracked", bool(wr) and bool(bl) and not (r & oks), "with TrackTotalSupply enabled every path to Ok stores the new total supply", b.loc(wr[0]) if wr else b.loc())
+        # supply update (here or in a manager helper) only skipped on the feature-disabled arm
+        ctx.ob("mint|supply-updated-when-tracked", must_update(n), "with TrackTotalSupply enabled every path to Ok stores the new total supply (locally or through a manager method)", b.loc())
         # same amount
         srcs = {}
         for bb, t in b.calls(re.escape(FRM) + r"::create_bucket$"):
@@ -59,24 +81,43 @@ def run(ctx):
             srcs["event"] = {x for x in origin_names(b, t["args"][1], deep=True) if x.startswith("param:")}
         for bb, t in b.calls(r"::checked_add$"):
             srcs["supply+="] = {x for x in origin_names(b, t["args"][1]) if x.startswith("param:")}
+        for bb, t in b.calls(re.escape(FRM) + r"::\w+$"):
+            if t["f"] in meths and t["f"] != n and memo.get(t["f"]):
+                srcs["supply+="] = set().union(*[{x for x in origin_names(b, a) if x.startswith("param:") and x != f"param:{b.argc}"} for a in t["args"][:-1]] or [set()])
         ctx.ob("mint|same-amount", len(srcs) == 3 and all(v == {"param:1"} for v in srcs.values()), f"amount operands: {srcs}", b.loc())
     n = FRM + "::burn_internal"
     if ctx.anchor(n):
         b = ctx.body(n)
         oks = set(b.ok_exits())
         for what, pat in (("drop_fungible_bucket", r"::drop_fungible_bucket$"), ("BurnFungibleResourceEvent", r"Runtime::emit_event$"),
-                          ("burnable check", re.escape(FRM) + r"::assert_burnable$"), ("feature test", r"::actor_is_feature_enabled$")):
+                          ("burnable check", re.escape(FRM) + r"::assert_burnable$")):
             blocks = call_blocks(b, pat)
             ok = bool(blocks) and not (b.reach((0,), blocked_blocks=blocks) & oks)
             ctx.ob(f"burn|{what}-on-every-path", ok, f"{what}: on every path to Ok: {ok}", b.loc(blocks[0]) if blocks else b.loc())
-        wr = [bb for bb, t in b.calls(r"::field_write_typed$") if "TotalSupply" in t["ga"]]
-        e, bl = pass_edges(b, G_bool_call(r"::actor_is_feature_enabled$", False))
-        r = b.reach((0,), blocked_edges=e, blocked_blocks=wr)
-        ctx.ob("burn|supply-updated-when-tracked", bool(wr) and bool(bl) and not (r & oks), "with TrackTotalSupply enabled every path to Ok stores the new total supply", b.loc())
         ev = [origin_names(b, t["args"][1], deep=True) for _, t in b.calls(r"Runtime::emit_event$")]
-        sub = [origin_names(b, t["args"][1], deep=True) for _, t in b.calls(r"::checked_sub$")]
-        ok = bool(ev) and bool(sub) and all(any("drop_fungible_bucket" in x for x in s) for s in ev + sub)
-        ctx.ob("burn|same-amount", ok, "event amount and supply decrement both originate from the dropped bucket", b.loc())
+        ok = bool(ev) and all(any("drop_fungible_bucket" in x for x in s_) for s_ in ev)
+        ctx.ob("burn|event-amount-is-the-dropped-amount", ok, "the Burn event amount originates from the dropped bucket", b.loc())
+    EMPTY_ONLY = {"drop_empty_bucket": "drops a bucket only on the amount.is_zero() arm (decided by C09): the supply does not change"}
+    entries = sorted(nm for nm in meths if nm not in called and trans(nm, drops) and nm.rsplit("::", 1)[1] not in EMPTY_ONLY)
+    for k_, why in EMPTY_ONLY.items():
+        ctx.note(f"burn entry-point exception {k_}: {why}")
+    ctx.floor("burn|entry-points", len(entries), 2)
+    for nm in entries:
+        ctx.ob(f"burn|{nm.rsplit('::', 1)[1]}|supply-updated-when-tracked", must_update(nm),
+               f"{nm.rsplit('::', 1)[1]} drops a bucket (transitively) and stores the new total supply on every path to Ok: {must_update(nm)}", meths[nm].loc())
+    # the decrement is the dropped amount, wherever the subtraction lives
+    subs = 0
+    for nm in meths:
+        bm = ctx.body(nm)
+        wr = [bb for bb, t in bm.calls(r"::field_write_typed$") if "TotalSupply" in t["ga"]]
+        for _, t in bm.calls(r"::checked_sub$"):
+            if wr:
+                subs += 1
+                srcs = origin_names(bm, t["args"][1], deep=True)
+                ok = any("drop_fungible_bucket" in x or x.startswith("param:") for x in srcs)
+                ctx.ob(f"burn|{nm.rsplit('::', 1)[1]}|decrement-is-the-dropped-amount", ok, f"supply decrement operand originates from {sorted(x.split('::')[-1] for x in srcs)[:5]}", bm.loc())
+    if not subs:
+        ctx.note("no checked_sub next to the total-supply write (the decrement may be expressed as adding a negated amount): decrement provenance not decided")
     # non fungible: update_total_supply + event on each mint path, burn
     for fn, sign in (("mint_non_fungible", "+"), ("mint_ruid_non_fungible", "+"), ("mint_single_ruid_non_fungible", "+"), ("burn_internal", "-")):
         n = NRM + "::" + fn
